@@ -131,7 +131,7 @@ PROPS = {
         'assumptions': [],
     },
     'C17': {
-        'kinds': {102: {'quick': 800, 'thorough': 20000}, 1701: {'quick': 1200, 'thorough': 20000}, 1702: {'quick': 1000, 'thorough': 20000}, 1703: {'quick': 300, 'thorough': 6000}, 1704: {'quick': 200, 'thorough': 2000}, 302: {'quick': 3000, 'thorough': 60000}, 1803: {'quick': 3000, 'thorough': 60000}},
+        'kinds': {102: {'quick': 800, 'thorough': 20000}, 1105: {'quick': 1500, 'thorough': 30000}, 1701: {'quick': 1200, 'thorough': 20000}, 1702: {'quick': 1000, 'thorough': 20000}, 1703: {'quick': 300, 'thorough': 6000}, 1704: {'quick': 200, 'thorough': 2000}, 302: {'quick': 3000, 'thorough': 60000}, 1803: {'quick': 3000, 'thorough': 60000}},
         'trusted': ['Go select semantics: one ready case is chosen; channel operations are atomic steps of the manager loop'],
         'assumptions': ['callers release only reservations they were granted (caller protocol)'],
     },
